@@ -109,7 +109,7 @@ def add_tc(apid: IntRange(0, 2047), count: IntRange(0, 16383), j: U32):
     was_known = k in v.verif_dict
     before_k = snapshot(v.verif_dict.get(k))
     other = mk_req_id(j)
-    requires(other != k)
+    requires(j != k.as_u32())      # another telecommand: its 32 request-ID bits differ (not stated through __eq__, which is itself under test)
     before_j = v.verif_dict.get(other)
     before_j_view = snapshot(before_j)
     r = v.add_tc(tc)
@@ -136,7 +136,7 @@ def add_tm(apid: IntRange(0, 2047), count: IntRange(0, 16383), sub: Choice(1, 2,
     entry = v.verif_dict.get(k)
     old = snapshot(entry)
     other = mk_req_id(j)
-    requires(other != k)
+    requires(j != k.as_u32())      # another telecommand: its 32 request-ID bits differ (not stated through __eq__, which is itself under test)
     before_j = v.verif_dict.get(other)
     before_j_view = snapshot(before_j)
     r = v.add_tm(tm)
@@ -181,7 +181,7 @@ def remove_entry(u: U32, j: U32):
     v = arbitrary_tracker()
     k = mk_req_id(u)
     other = mk_req_id(j)
-    requires(other != k)
+    requires(j != k.as_u32())      # another telecommand: its 32 request-ID bits differ (not stated through __eq__, which is itself under test)
     known = k in v.verif_dict
     before_j = v.verif_dict.get(other)
     before_j_view = snapshot(before_j)
@@ -222,7 +222,7 @@ def remove_completed_after_report(apid: IntRange(0, 2047), count: IntRange(0, 16
     v.remove_completed_entries()
     ensures("removed-iff-finished", (k in v.verif_dict) == (not finished))
     other = mk_req_id(j)
-    requires(other != k)
+    requires(j != k.as_u32())      # another telecommand: its 32 request-ID bits differ (not stated through __eq__, which is itself under test)
     o_after = v.verif_dict.get(other)
     if o_after is not None:
         ensures("kept-entries-are-unfinished", not o_after.all_verifs_recvd)
